@@ -182,6 +182,28 @@ static void rt_pair(int kind, int fsm, int base /*3 or 5*/)
         if (sample_wanted()) sample_printf("%s handler on the %s FSM handed \"%s\" (size %zu, max %zu) == automatic text of its handler-less twin", kind == K_READ ? "read" : "test", fsm ? "event" : "command", (char *)hc[0].data, hc[0].size, hc[0].max);
 }
 
+/* the same descriptor is used twice in a row on one state machine, with another name the second time (parser idle in between): the response carries the new name */
+static void renamed_request(int fsm)
+{
+        static const char *nn[4] = { "+R2", "+RENAMED", "+X", "+R_WITH_A_MUCH_LONGER_NAME" };
+        NOISE_PM = 0;
+        for (int pass = 0; pass < 2 && !case_failed(); pass++) {
+                if (pass == 1) { W.cmd[3]->name = xstr(nn[rn(4)]); CNT("descriptors_renamed_between_requests"); }
+                const char *hn = W.cmd[3]->name;
+                in_reset();
+                if (fsm == FSM_A) { in_puts("AT"); in_puts(hn); in_puts("?\n"); }
+                else if (cat_trigger_unsolicited_event(W.at, W.cmd[3], CAT_CMD_TYPE_READ) != CAT_STATUS_OK) { inconclusive("trigger refused"); return; }
+                two_pass = false;
+                snprintf(note, sizeof note, "READ request on the %s FSM for \"%s\"%s", fsm ? "event" : "command", hn, pass ? " (the descriptor had another name in the request before)" : "");
+                if (!run_line()) { inconclusive("no quiescence"); return; }
+                if (pass == 0) continue;
+                size_t cap = fsm == FSM_A ? W.capA : W.capU;
+                char ref[600]; int rl = ref_fmt_read(W.cmd[3], ref, sizeof ref);
+                bool fits = rl >= 0 && (size_t)rl < cap && (ref_readable(W.cmd[3]) || true);
+                if (fits && (nhc != 1 || strcmp(ref, (char *)hc[0].data) != 0 || hc[0].size != (size_t)rl)) viol("C06", "response-text", "after the descriptor was renamed the read handler was handed \"%.60s\" (size %zu, %d call(s)), the descriptor asks for \"%.60s\"", nhc ? (char *)hc[0].data : "", nhc ? hc[0].size : 0, nhc, ref);
+                if (!fits && nhc != 0) viol("C06", "handler-though-text-does-not-fit", "the renamed command's text does not fit but the handler was invoked");
+        }
+}
 struct case_budget chk_budget(const char *tier)
 {
         struct case_budget b = { (128 - 6 + 1) * 2, strcmp(tier, "thorough") == 0 ? 2500000 : 40000 };
@@ -201,5 +223,6 @@ void chk_run_case(uint64_t seed, long c, bool is_sweep)
         for (int r = 0; r < 6 && !case_failed(); r++) { unsigned m = rn(4); size_t L = m == 0 ? rn(4) : m == 1 ? rn((unsigned)W.capA + 3) : m == 2 ? W.capA + rn((unsigned)W.capA * 2 + 2) : W.capA - 1 - rn(W.capA > 3 ? 3 : 1); int t = (int)rn(3); if (t == 1 && L < 8) t = 0; write_line(t, L, chance(50)); }
         for (int kind = K_READ; kind <= K_TEST && !case_failed(); kind += 2)
                 for (int fsm = 0; fsm < 2 && !case_failed(); fsm++) { rt_pair(kind, fsm, 3); if (!case_failed()) rt_pair(kind, fsm, 5); }
+        if (!case_failed() && chance(30)) for (int fsm = 0; fsm < 2 && !case_failed(); fsm++) renamed_request(fsm);
 }
 int main(int argc, char **argv) { MY_PROP = "C06"; PROG_NAME = "chk_C06"; return verif_main(argc, argv); }
